@@ -1255,6 +1255,7 @@ class Explorer:
         caught = {t for h in s.handlers for t in self._handler_types(h)}
         lookup = caught & {"KeyError", "IndexError", "LookupError"}
         stop = "StopIteration" in caught
+        oserr = caught & {"FileNotFoundError", "FileExistsError", "OSError", "IOError", "PermissionError", "NotADirectoryError", "IsADirectoryError"}
 
         def may_raise(stmt) -> str | None:
             for x in ast.walk(stmt):
@@ -1266,6 +1267,8 @@ class Explorer:
                     return sorted(lookup)[0]
                 if stop and isinstance(x, ast.Call) and isinstance(x.func, ast.Name) and x.func.id == "next" and len(x.args) == 1:
                     return "StopIteration"
+                if oserr and isinstance(x, ast.Call):
+                    return sorted(oserr)[0]  # any call may touch the file system
             return None
 
         def run_body(i, s2):
@@ -1273,7 +1276,17 @@ class Explorer:
                 return after_body(s2)
 
             def gen():
-                exc_name = may_raise(s.body[i]) if s.handlers and isinstance(s.body[i], (ast.Assign, ast.AnnAssign, ast.AugAssign, ast.Expr, ast.Return)) else None
+                stmt_i = s.body[i]
+                probe = stmt_i
+                if isinstance(stmt_i, (ast.With, ast.AsyncWith)):
+                    probe = ast.Expr(value=ast.Tuple(elts=[it.context_expr for it in stmt_i.items], ctx=ast.Load()))
+                elif isinstance(stmt_i, (ast.If, ast.While)):
+                    probe = ast.Expr(value=stmt_i.test)
+                elif isinstance(stmt_i, (ast.For, ast.AsyncFor)):
+                    probe = ast.Expr(value=stmt_i.iter)
+                elif not isinstance(stmt_i, (ast.Assign, ast.AnnAssign, ast.AugAssign, ast.Expr, ast.Return)):
+                    probe = None
+                exc_name = may_raise(probe) if s.handlers and probe is not None else None
                 if exc_name is not None:
                     s_exc = s2.fork()
                     yield from on_exc(s_exc, ast.Call(func=ast.Name(id=exc_name, ctx=ast.Load()), args=[], keywords=[]), s.body[i])
